@@ -224,11 +224,12 @@ def _count_clauses(text: str) -> int:
     """number of top-level comma separated clauses in a requires/ensures/invariant splice, or 1 for
     proof hints"""
     body = re.sub(r'//[^\n]*', '', text)
-    if not re.search(r'\b(requires|ensures|invariant|invariant_except_break|decreases)\b', body):
+    body = re.sub(r'\|[^|]*\|', ' Q ', body)      # quantifier / closure binders (and `||`) hold no clause separators
+    if not re.search(r'(?<![.\w])(requires|ensures|invariant|invariant_except_break|decreases)\b', body):
         return 1
     n, depth = 0, 0
     pending = False
-    for tok in re.finditer(r'\b(requires|ensures|invariant_except_break|invariant|decreases)\b|[(\[{]|[)\]}]|,|\S', body):
+    for tok in re.finditer(r'(?<![.\w])(requires|ensures|invariant_except_break|invariant|decreases)\b|[(\[{]|[)\]}]|,|\S', body):
         t = tok.group(0)
         if t in ('requires', 'ensures', 'invariant', 'invariant_except_break', 'decreases') and depth == 0:
             if pending:
@@ -363,6 +364,7 @@ def assemble(sc: Sidecar, mutate=None, canary: Optional[str] = None) -> Assemble
         ins = []
         if is_fn:
             an = fn_anatomy(rewritten)
+            an_orig = fn_anatomy(text)
             if ex.ret and an.arrow is not None:
                 ins.append((an.ret_start, '(%s: ' % ex.ret, 'ret', 0, False))
                 ins.append((an.ret_end, ')', 'ret', 0, False))
@@ -403,8 +405,8 @@ def assemble(sc: Sidecar, mutate=None, canary: Optional[str] = None) -> Assemble
                     if o >= len(an.loops):
                         raise RsxError('anchor-lost: loop#%d not found in %s' % (o, ex.path))
                     fp = ex.fingerprints.get(o)
-                    if fp and _nows(fp) not in _nows(an.loops[o].header_text):
-                        raise RsxError('anchor-lost: loop#%d of %s is now `%s`, expected `%s`' % (o, ex.path, an.loops[o].header_text, fp))
+                    if fp and (o >= len(an_orig.loops) or not _fp_ok(fp, an_orig.loops[o].header_text)):
+                        raise RsxError('anchor-lost: loop#%d of %s is now `%s`, expected `%s`' % (o, ex.path, an_orig.loops[o].header_text if o < len(an_orig.loops) else '-', fp))
                     ins.append((an.loops[o].brace, t, 'loop#%d' % o, sp.line, True))
                 else:
                     ms = list(re.finditer(sp.arg, rewritten))
@@ -428,7 +430,7 @@ def assemble(sc: Sidecar, mutate=None, canary: Optional[str] = None) -> Assemble
         # ---- emit
         pos = 0
 
-        def src_origin(seg_start):
+        def src_origin(seg_start, ex=ex, rewritten=rewritten, omap=omap, src=src, start=start, first_line=first_line):
             def f(k, seg_start=seg_start):
                 # origin of the first non-ws char of line k of this segment
                 off = seg_start
@@ -436,7 +438,10 @@ def assemble(sc: Sidecar, mutate=None, canary: Optional[str] = None) -> Assemble
                 cnt = 0
                 idx = 0
                 while cnt < k:
-                    idx = seg.index('\n', idx) + 1
+                    nx = seg.find('\n', idx)
+                    if nx < 0:
+                        return LineOrigin('rule', ex.file, first_line, fn=ex.path)
+                    idx = nx + 1
                     cnt += 1
                 j = seg_start + idx
                 while j < len(rewritten) and rewritten[j] in ' \t':
@@ -454,9 +459,9 @@ def assemble(sc: Sidecar, mutate=None, canary: Optional[str] = None) -> Assemble
                 splice_count += 1
                 clause_count += _count_clauses(t)
                 pre = '' if (pos == 0 or rewritten[pos - 1] == '\n') else '\n'
-                b.add(pre + t, (lambda block, sline, pre: lambda k: LineOrigin('splice', sc.path, sline + k - (1 if pre else 0), fn=ex.path, block=block))(block, sline, pre))
+                b.add(pre + t, (lambda block, sline, pre, exp: lambda k: LineOrigin('splice', sc.path, sline + k - (1 if pre else 0), fn=exp, block=block))(block, sline, pre, ex.path))
             else:
-                b.add(t, (lambda block: lambda k: LineOrigin('splice', sc.path, 0, fn=ex.path, block=block))(block))
+                b.add(t, (lambda block, exp: lambda k: LineOrigin('splice', sc.path, 0, fn=exp, block=block))(block, ex.path))
         b.add(rewritten[pos:] + '\n\n', src_origin(pos))
 
     b.add('\n} // verus!\nfn main() {}\n', lambda k: LineOrigin('frame', sc.path, 0))
@@ -482,6 +487,13 @@ def assemble(sc: Sidecar, mutate=None, canary: Optional[str] = None) -> Assemble
     # the `(r: T)` return naming splits a source line: strip those insertions from `got`
     asm.selfcheck_ok = _strip_ret(got, [e.ret for e in sc.parts if isinstance(e, Extract) and e.ret]) == want_noglue if mutate is None else True
     return asm
+
+
+def _fp_ok(fp, header):
+    """a loop fingerprint matches when the keyword is the same and every identifier of the fingerprint
+    still occurs in the header (so `i < n` -> `i <= n` is the same loop; a different loop is anchor-lost)"""
+    ids = lambda t: set(re.findall(r'[A-Za-z_]\w*', t))
+    return fp.split()[0] == header.split()[0] and ids(fp) <= ids(header)
 
 
 def _nows(s):
